@@ -68,23 +68,33 @@ def define(db):
 _template = {}
 
 
+SCHEMA = """
+CREATE TABLE "A" ("id" INTEGER PRIMARY KEY AUTOINCREMENT);
+CREATE TABLE "B" ("id" INTEGER PRIMARY KEY AUTOINCREMENT);
+CREATE TABLE "A_B" (
+  "a" INTEGER NOT NULL REFERENCES "A" ("id") ON DELETE CASCADE,
+  "b" INTEGER NOT NULL REFERENCES "B" ("id") ON DELETE CASCADE,
+  PRIMARY KEY ("a", "b")
+);
+CREATE INDEX "idx_a_b" ON "A_B" ("b");
+CREATE TABLE "T" ("id" INTEGER PRIMARY KEY AUTOINCREMENT, "v" INTEGER NOT NULL);
+"""
+
+
 def template_db(scratch):
-    """A database file with the schema and the pre-state; copied for every scenario."""
+    """A database file with the schema pony generates for `define` and the pre-state; copied for every scenario.
+    Written with plain sqlite3 so that the set-up does not depend on the code under test."""
     key = scratch.dir
     if key in _template:
         return _template[key]
     path = scratch.path('txn', 'template.sqlite')
-    db = Database()
-    define(db)
-    db.bind('sqlite', path, create_db=True)
-    db.generate_mapping(create_tables=True)
-    with db_session:
-        for i in range(1, NROWS + 1):
-            db.T(v=i)
-        for i in range(1, 4):
-            db.A()
-            db.B()
-    db.disconnect()
+    con = sqlite3.connect(path)
+    con.executescript(SCHEMA)
+    con.executemany('insert into T (id, v) values (?, ?)', [(i, i) for i in range(1, NROWS + 1)])
+    con.executemany('insert into A (id) values (?)', [(i,) for i in range(1, 4)])
+    con.executemany('insert into B (id) values (?)', [(i,) for i in range(1, 4)])
+    con.commit()
+    con.close()
     _template[key] = path
     return path
 
